@@ -433,7 +433,7 @@ func (ex *Ex) pump() {
 				break
 			}
 			parsed = end
-			pr := &PktRec{P: p, Seq: seq, VT: ex.vt(), Index: len(c.Pkts), Size: total}
+			pr := &PktRec{P: p, Seq: seq, VT: ex.vt(), Index: len(c.Pkts), Size: total, Conn: c.Idx}
 			c.Pkts = append(c.Pkts, pr)
 			ex.H.add(&Ev{Kind: "pkt", Conn: c.Idx, Pkt: p, N: int64(total), N2: int64(seq)})
 			ex.react(c, p)
